@@ -45,6 +45,7 @@ type sigView struct {
 type filt struct{ sig, byteIdx, mask, length, off int }
 
 type obs struct {
+	msgBE   bool // Message.ByteOrder() == big endian
 	view    []sigView
 	filters []filt
 	decodes [][][2]uint64 // per payload: (id, raw)
@@ -77,6 +78,7 @@ func observe(w *world, payloads [][]byte) (o obs) {
 		}
 	}()
 	sl := w.msg.SignalLayout()
+	o.msgBE = w.msg.ByteOrder() == acmelib.MessageByteOrderBigEndian
 	for _, s := range w.msg.Signals() { // layout order
 		o.view = append(o.view, sigView{w.ids[s.EntityID()], s.GetRelativeStartPos(), s.GetSize(),
 			s.Endianness() == acmelib.MessageByteOrderBigEndian, kindOf(s)})
@@ -190,6 +192,14 @@ func checkProps(o obs, payloads [][]byte, nbits int) []failure {
 	}
 	if o.panicked != "" {
 		return []failure{{"c02-panic", o.panicked}}
+	}
+	// the byte order of the message is the byte order of every signal in its layout (the spec
+	// below reads the payload in the message's byte order)
+	for _, v := range o.view {
+		if v.be != o.msgBE {
+			return []failure{{"c02-byte-order-not-propagated", fmt.Sprintf("message big-endian=%v but signal %d (start %d size %d) reports big-endian=%v",
+				o.msgBE, v.id, v.start, v.size, v.be)}}
+		}
 	}
 	byID := map[int]sigView{}
 	wantOrder := []int{}
